@@ -16,6 +16,7 @@ package main
 //@ ghost nreal int
 //@ ghost seen int
 //@ ghost nmin int
+//@ ghost nfiled int
 
 // minVersion: the empty string is an absolute minimum; otherwise one of the two
 // arguments, and not greater than either in the order of its kind: Go versions
@@ -49,11 +50,16 @@ package main
 //@   at call minVersion#1: assert arg0 == minVersions[gcfg.Program] && arg1 == gcfg.Version
 //@   at call minVersion#1: ghost $nmin = $nmin + 1
 //@   loop 2: invariant $nmin - loopentry($nmin) == rangeindex + 1
+// Every record is filed: each turn of the loop over the records appends exactly
+// one entry (to the stacks or to the counters of the record's program).
+//@   at call append#1: ghost $nfiled = $nfiled + 1
+//@   at call append#2: ghost $nfiled = $nfiled + 1
+//@   loop 2: invariant $nfiled - loopentry($nfiled) == rangeindex + 1
 //@   loop 2: invariant forall k string :: in(k, programs) ==> programs[k] != nil && programs[k].Name == k && allocated(programs[k])
 //@   loop 3: invariant ucfg != nil && (forall k string :: in(k, programs) ==> programs[k] != nil)
 //@   loop 4: invariant ucfg != nil && p != nil
 //@   loop 5: invariant ucfg != nil && p != nil && 0 <= i && i <= rangeindex+1 && i <= len(versions)
-//@   modifies heap, $nreal, $seen, $nmin
+//@   modifies heap, $nreal, $seen, $nmin, $nfiled
 
 //@ contract prereleasesForProgram
 //@   modifies nothing
